@@ -1,4 +1,5 @@
 """C09 - caches are transparent; the carried likelihood equals the recomputed one."""
+from . import refmodel as ref
 from . import wl_assemble, wl_call, wl_ped
 from .core import Counters, EventLog, RunContext, Tape, Violation
 from .engine_k import bootstrap, rel_close
@@ -19,7 +20,8 @@ RULE = (
 )
 FAULT_KEYS = ["cache_flush", "cache_growth", "cache_created", "adversarial_choice", "row_permute", "exchange_accepted", "swap_unequal_reads", "swap_q_more_reads_than_p"]
 PROBE_KEYS = ["keystress_lookups", "keystress_power_of_two_pairs", "cached_calls_checked", "cache_hit", "cache_miss", "cache_set", "cache_flush", "cache_growth", "trajectory_pairs", "call_cached_calls",
-              "ped_cached_calls", "cache_entries_audited", "swap_q_more_reads_than_p", "exchange_accepted"]
+              "ped_cached_calls", "cache_entries_audited", "swap_q_more_reads_than_p", "exchange_accepted",
+              "fixfit_trace_llks_checked", "fixfit_with_fixed_sites", "fixfit_majority_of_reads_on_fixed_sites_only"]
 OPTIONAL_PROBES = {"quick": (), "thorough": ()}
 COMPONENTS = {
     "real": ["mchap.assemble.arraymap.*", "mchap.assemble.likelihood.*_cached", "mchap.assemble.mcmc._denovo_assembler and all step functions",
@@ -52,6 +54,12 @@ def gen_config(rng, tier, index=0):
     if rng.random() < 0.04:
         return {"workload": "keystress", "ploidy": rng.choice([1, 3, 4, 5, 6, 7, 8]), "n_haps": rng.choice([60, 130, 200]), "data_seed": rng.randrange(2 ** 31),
                 "n_samples": rng.choice([2, 3]), "queries": rng.randint(20, 60)}
+    if rng.random() < 0.05:
+        n_pos = rng.choice([2, 3, 4, 5, 6])
+        return {"workload": "fixfit", "ploidy": rng.choice([2, 2, 3, 4]), "n_alleles": [rng.choice([2, 2, 3]) for _ in range(n_pos)],
+                "hom_cols": [rng.random() < 0.6 for _ in range(n_pos)], "depth": rng.choice([6, 12, 25, 40]), "threshold": rng.choice([0.9, 0.99, 0.999]),
+                "inbreeding": rng.choice([0.0, 0.0, 0.2]), "data_seed": rng.randrange(2 ** 31), "steps": rng.randint(2, 6), "chains": rng.choice([1, 2]),
+                "temperatures": rng.choice([[1.0], [0.3, 1.0]]), "cache_threshold": rng.choice([-1, 0, 100]), "window": rng.random() < 0.8}
     w = rng.choice(["assemble", "assemble", "assemble", "call", "pedigree", "pedigree"])
     if w == "assemble":
         cfg = wl_assemble.gen_config(rng, tier, "cache")
@@ -144,11 +152,105 @@ def run_keystress(ctx):
     ctx.counters.inc("ped_cached_calls", len(queries))
 
 
+def run_fixfit(ctx):
+    """DenovoMCMC.fit end to end with homozygous-site fixing and short, weighted reads.  All haplotypes agree at a fixed site, so
+    the read likelihood factorises: every likelihood recorded in the trace must equal the likelihood of that step's FULL genotype
+    on the sample's own reads and counts (repo's uncached function) minus the constant contributed by the fixed sites - whatever
+    the preprocessing between fit() and the inner sampler does to the read arrays."""
+    import math
+    import random as _random
+    m = bootstrap()
+    np = m["np"]
+    cfg = ctx.config
+    rng = _random.Random(cfg["data_seed"])
+    n_alleles = cfg["n_alleles"]
+    n_pos = len(n_alleles)
+    amax = max(n_alleles)
+    pl = cfg["ploidy"]
+    truth = [[0] * n_pos for _ in range(pl)]
+    for j in range(n_pos):
+        a = rng.randrange(n_alleles[j])
+        for h in range(pl):
+            truth[h][j] = a if cfg["hom_cols"][j] else rng.randrange(n_alleles[j])
+    depth = cfg["depth"]
+    reads = np.full((depth, n_pos, amax), np.nan)
+    for r in range(depth):
+        hap = rng.choice(truth)
+        lo, hi = 0, n_pos
+        if cfg["window"]:
+            lo = rng.randrange(n_pos)
+            hi = rng.randint(lo + 1, min(n_pos, lo + rng.choice([1, 2, 3])))
+        for j in range(lo, hi):
+            p = rng.choice([0.99, 0.999])
+            a = hap[j] if rng.random() < 0.98 else rng.randrange(n_alleles[j])
+            reads[r, j, :] = 0.0
+            reads[r, j, : n_alleles[j]] = (1 - p) / max(1, n_alleles[j] - 1)
+            reads[r, j, a] = p
+    counts = np.array([rng.choice([1, 2, 3, 5, 9]) for _ in range(depth)], dtype=np.int64)
+    thr, F = cfg["threshold"], cfg["inbreeding"]
+    cols = [[reads[r, j, :].tolist() for r in range(depth)] for j in range(n_pos)]
+    fixed = {}
+    for j in range(n_pos):
+        hp = ref.snv_homozygosity(cols[j], [int(c) for c in counts], n_alleles[j], pl, F)
+        for a, pr in enumerate(hp):
+            if abs(pr - thr) < 1e-9:
+                ctx.counters.inc("fixfit_threshold_near_skip")
+                return
+            if pr >= thr:
+                fixed[j] = a
+    handed = []
+    amcmc = m["amcmc"]
+    real = amcmc._denovo_assembler
+
+    def w_denovo(**kw):
+        handed.append(int(np.asarray(kw["reads"]).shape[1]))
+        return real(**kw)
+
+    from .engine_k import Seams
+    with Seams() as seams:
+        seams.set(amcmc, "_denovo_assembler", w_denovo)
+        model = amcmc.DenovoMCMC(ploidy=pl, n_alleles=list(n_alleles), inbreeding=F, steps=cfg["steps"], chains=cfg["chains"], fix_homozygous=thr,
+                                 temperatures=tuple(cfg["temperatures"]), random_seed=int(cfg["data_seed"] % 10 ** 6) + 1, llk_cache_threshold=cfg["cache_threshold"])
+        trace = model.fit(reads, read_counts=counts)
+    if not handed or any(h != n_pos - len(fixed) for h in handed):
+        # which sites are fixed is C15's question; without agreement on it the constant below is undefined
+        ctx.counters.inc("fixfit_fixed_set_differs_skip")
+        return
+    G = np.asarray(trace.genotypes)
+    L = np.asarray(trace.llks)
+    const = 0.0
+    for r in range(depth):
+        for j, a in fixed.items():
+            v = reads[r, j, a]
+            if v == v:
+                const += int(counts[r]) * math.log(v)
+    fresh = m["likelihood"].log_likelihood
+    for c in range(G.shape[0]):
+        for i in range(G.shape[1]):
+            full = float(fresh(reads, G[c, i], read_counts=counts))
+            want = full - const
+            got = float(L[c, i])
+            ctx.counters.inc("fixfit_trace_llks_checked")
+            if not (abs(got - want) <= 1e-9 * max(1.0, abs(want))):
+                raise Violation("trace_llk_not_own_reads",
+                                "likelihood recorded in the trace of DenovoMCMC.fit is %.9g; the step's genotype on the sample's own reads and counts has %.9g "
+                                "(= full likelihood %.9g minus the fixed sites' constant %.9g)" % (got, want, full, const), step=i,
+                                detail={"chain": c, "fixed_sites": sorted(fixed), "n_reads": depth, "threshold": thr})
+    if fixed:
+        ctx.counters.inc("fixfit_with_fixed_sites")
+    informative = sum(1 for r in range(depth) if any(not math.isnan(reads[r, j, 0]) for j in range(n_pos) if j not in fixed))
+    if fixed and informative <= depth // 2:
+        ctx.counters.inc("fixfit_majority_of_reads_on_fixed_sites_only")
+    ctx.key("fixfit", pl, tuple(n_alleles), tuple(sorted(fixed)), cfg["cache_threshold"], hash(G.tobytes()) & 0xFFFFFF)
+
+
 def execute(ctx):
     cfg = ctx.config
     w = cfg["workload"]
     if w == "keystress":
         return run_keystress(ctx)
+    if w == "fixfit":
+        return run_fixfit(ctx)
     if w == "assemble":
         sim = wl_assemble.AssembleSim(ctx, cfg, checks=("cache",))
         sim.run()
@@ -194,6 +296,12 @@ def shrink_candidates(cfg, violation):
     w = cfg["workload"]
     if w == "keystress":
         return [dict(cfg, queries=max(1, cfg["queries"] // 2))] if cfg["queries"] > 1 else []
+    if w == "fixfit":
+        out = []
+        for k, v in (("chains", 1), ("steps", max(1, cfg["steps"] - 1)), ("depth", max(2, cfg["depth"] // 2)), ("temperatures", [1.0]), ("inbreeding", 0.0), ("cache_threshold", -1)):
+            if cfg[k] != v:
+                out.append(dict(cfg, **{k: v}))
+        return out
     if w == "assemble":
         out = []
         for c in wl_assemble.shrink_candidates(cfg, violation):
